@@ -208,6 +208,16 @@ template<typename Chk> u64 sweep_pairs(Shim* s, int op, std::vector<i64> const& 
   rec.add_states(n, n, n);
   return n;
   }
+// expected value of fm_un_cmpmask / fm_bin_cmpmask for a result r (comparisons against the shim's constants, isnan, >= 0, != 0)
+inline u64 expected_cmpmask(Shim* s, i64 r)
+  {
+  u64 m = 0; int n = s->fm_cmpmask_count();
+  for( int i = 0; i < n; ++i ) { i64 c = s->fm_cmpmask_const(i); m |= (static_cast<u64>(r < c) << (3*i)) | (static_cast<u64>(r == c) << (3*i+1)) | (static_cast<u64>(r > c) << (3*i+2)); }
+  m |= static_cast<u64>(r == FX_NAN || r == -FX_NAN) << (3*n);
+  m |= static_cast<u64>(r >= 0) << (3*n+1);
+  m |= static_cast<u64>(r != 0) << (3*n+2);
+  return m;
+  }
 inline Example ex1(Shim* s, std::string entry, std::string shape, std::vector<std::pair<std::string,std::string>> in,
                    std::string expected, std::string got, std::string rcase, std::vector<std::string> rin)
   {
